@@ -19,7 +19,9 @@ Proof. induction a; cbn; [reflexivity|]. rewrite IHa. reflexivity. Qed.
 Definition rmap {A B} (f : A -> B) (r : res A) : res B := match r with Ok a => Ok (f a) | Err e => Err e end.
 
 (* ---------- tflat ---------- *)
-Lemma tflat_nil : tflat [] = "".
+Lemma tflat_nil : tflat (@nil dtok) = "".
+Proof. reflexivity. Qed.
+Lemma tflat_nil' : tflat (@nil (bool * atok)) = "".
 Proof. reflexivity. Qed.
 Lemma tflat_cons t r : tflat (t :: r) = (tok_text t ++ tflat r)%string.
 Proof. reflexivity. Qed.
@@ -49,12 +51,19 @@ Lemma tflat_falias r og ts alias qc aqc kw :
   tflat (falias r og ts alias qc aqc kw) = fmt_alias (tflat ts) alias qc aqc kw.
 Proof.
   destruct alias as [a|]; cbn [falias fmt_alias]; [|reflexivity].
-  rewrite tflat_app, !tflat_cons, tflat_nil. cbn [tok_text snd atok_text]. rewrite sapp_nil_r. reflexivity.
+  rewrite tflat_app, !tflat_cons, tflat_nil'. cbn [tok_text snd atok_text]. rewrite sapp_nil_r. reflexivity.
 Qed.
 Lemma tflat_alias_toks c og qc ts alias : tflat (alias_toks c og qc ts alias) = alias_sql c qc (tflat ts) alias.
 Proof. apply tflat_falias. Qed.
 
-#[export] Hint Rewrite tflat_app tflat_T tflat_V tflat_tjoin tflat_tparen tflat_alias_toks tflat_falias tflat_one tflat_nil
+Lemma tok_text_pair b a : tok_text (b, a) = atok_text a.
+Proof. reflexivity. Qed.
+Lemma tok_text_T s : tok_text (T s) = s.
+Proof. reflexivity. Qed.
+Lemma tok_text_V s : tok_text (V s) = s.
+Proof. reflexivity. Qed.
+#[export] Hint Rewrite tflat_cons tok_text_T tok_text_V tok_text_pair : tfl.
+#[export] Hint Rewrite tflat_app tflat_T tflat_V tflat_tjoin tflat_tparen tflat_alias_toks tflat_falias tflat_one tflat_nil tflat_nil'
   sapp_assoc sapp_nil_r : tfl.
 
 Lemma tflat_field c og name tbl :
@@ -76,7 +85,7 @@ Definition Pl (l : tlist) := forall c og, render_list c l = rmap (map tflat) (tt
 Definition Pw (l : wlist) := forall c og, render_whens c l = rmap (map tflat) (ttoks_whens c og l).
 Definition Po (o : oterm) := match o with ONone => True | OSome t => Pt t end.
 
-Ltac fin := cbn [rmap bind]; autorewrite with tfl; try reflexivity.
+Ltac fin := cbn [rmap bind]; autorewrite with tfl; cbn [atok_text]; autorewrite with tfl; try reflexivity.
 Ltac step IH c og := rewrite (IH c og); destruct (ttoks c og _) as [?ts|?e]; [cbn [rmap bind]|reflexivity].
 
 Lemma ttoks_render_all : (forall t, Pt t) /\ (forall l, Pl l) /\ (forall l, Pw l) /\ (forall o, Po o).
@@ -86,7 +95,6 @@ Proof.
     destruct (wa c); [rewrite tflat_alias_toks|]; rewrite tflat_field; reflexivity.
   - (* TStar *) intros tbl c og. cbn [render ttoks rmap]. f_equal.
     destruct tbl as [tb|]; [destruct (wn c || truthy_ostr (talias tb))|]; try reflexivity.
-    rewrite tflat_cons, tflat_one. reflexivity.
   - intros s alias c og. cbn [render ttoks rmap]. rewrite tflat_alias_toks, tflat_one. reflexivity.
   - intros z alias c og. cbn [render ttoks rmap]. rewrite tflat_alias_toks, tflat_one. reflexivity.
   - intros b sl alias c og. cbn [render ttoks rmap]. rewrite tflat_alias_toks, tflat_one. reflexivity.
@@ -138,9 +146,12 @@ Proof.
     rewrite (IHv c og). destruct (ttoks_list c og vs); [cbn [rmap bind]|reflexivity]. fin.
   - (* TArray *) intros vs IHv alias c og. cbn [render ttoks].
     rewrite (IHv c og). destruct (ttoks_list c og vs) as [ss|]; [cbn [rmap bind]|reflexivity].
-    rewrite tflat_alias_toks. do 2 f_equal. rewrite tflat_tjoin.
+    rewrite tflat_alias_toks. do 2 f_equal.
     destruct (is_pg (dia c)); [|fin].
-    destruct (join "," (map tflat ss)) eqn:E; fin. rewrite tflat_tjoin, E. reflexivity.
+    rewrite (tflat_tjoin "," ss).
+    destruct (join "," (map tflat ss)) eqn:E.
+    + rewrite tflat_V, tflat_tjoin, E. reflexivity.
+    + rewrite <- E. fin.
   - (* TSub *) intros col tbl alias c og. cbn [render ttoks rmap]. f_equal.
     destruct (wa c); fin.
   - (* TNil *) reflexivity.
@@ -158,3 +169,156 @@ Qed.
 
 Theorem ttoks_render : forall t c og, render c t = rmap tflat (ttoks c og t).
 Proof. exact (proj1 ttoks_render_all). Qed.
+
+(* ---------- 2. every token carries exactly the quote its origin prescribes ---------- *)
+Definition ctx_ok (v : conv) (og : origin) (c : ctx) : Prop :=
+  q c = v_q v /\ sq c = og_sq v og /\ aq c = og_aq v og /\ askw c = og_as v og.
+Definition ex (v : conv) (ts : list dtok) : Prop := Forall (exact_tok v) ts.
+
+Lemma ctx_ok_set_wa v og c b : ctx_ok v og c -> ctx_ok v og (set_wa c b).
+Proof. destruct c; exact (fun H => H). Qed.
+Lemma ctx_ok_set_subq v og c b : ctx_ok v og c -> ctx_ok v og (set_subq c b).
+Proof. destruct c; exact (fun H => H). Qed.
+Lemma ctx_ok_set_subc v og c b : ctx_ok v og c -> ctx_ok v og (set_subc c b).
+Proof. destruct c; exact (fun H => H). Qed.
+Lemma ctx_ok_set_wn v og c b : ctx_ok v og c -> ctx_ok v og (set_wn c b).
+Proof. destruct c; exact (fun H => H). Qed.
+Lemma ctx_ok_fctx v og c : ctx_ok v og c -> ctx_ok v (OFn None) (fctx c).
+Proof. intros [H _]. repeat split; assumption. Qed.
+
+Lemma ex_nil v : ex v [].
+Proof. constructor. Qed.
+Lemma ex_T v s ts : ex v ts -> ex v (T s :: ts).
+Proof. intros H. constructor; [exact I|exact H]. Qed.
+Lemma ex_V v s ts : ex v ts -> ex v (V s :: ts).
+Proof. intros H. constructor; [exact I|exact H]. Qed.
+Lemma ex_bool v b sl ts : ex v ts -> ex v ((false, ABool b sl) :: ts).
+Proof. intros H. constructor; [exact I|exact H]. Qed.
+Lemma ex_app v a b : ex v a -> ex v b -> ex v (a ++ b).
+Proof. intros. apply Forall_app; split; assumption. Qed.
+Lemma ex_tparen v b ts : ex v ts -> ex v (tparen b ts).
+Proof. intros H. destruct b; cbn [tparen]; [|exact H]. apply ex_T, ex_app; [exact H|apply ex_T, ex_nil]. Qed.
+Lemma ex_vparen v b p ts : ex v ts -> ex v (vparen b p ts).
+Proof.
+  intros H. destruct b, p; cbn [vparen]; try exact H.
+  - apply ex_V, ex_app; [exact H|apply ex_V, ex_nil].
+  - apply ex_T, ex_app; [exact H|apply ex_T, ex_nil].
+Qed.
+Lemma ex_tjoin v sep ss : Forall (ex v) ss -> ex v (tjoin sep ss).
+Proof.
+  induction 1 as [|x r Hx Hr IH]; [apply ex_nil|]. destruct r as [|y r'].
+  - exact Hx.
+  - change (tjoin sep (x :: y :: r')) with (x ++ T sep :: tjoin sep (y :: r')). apply ex_app; [exact Hx|apply ex_T, IH].
+Qed.
+Lemma ex_ident v og c name ts : ctx_ok v og c -> ex v ts -> ex v ((false, AId RIdent (q c) name og) :: ts).
+Proof. intros [H _] Ht. constructor; [exact H|exact Ht]. Qed.
+Lemma ex_str v og c s ts : ctx_ok v og c -> ex v ts -> ex v ((false, AStr (sq c) s og) :: ts).
+Proof. intros [_ [H _]] Ht. constructor; [exact H|exact Ht]. Qed.
+Lemma ex_alias v og c ts alias : ctx_ok v og c -> ex v ts -> ex v (alias_toks c og (q c) ts alias).
+Proof.
+  intros [Hq [_ [Ha Hk]]] Ht. unfold alias_toks, falias. destruct alias as [a|]; [|exact Ht].
+  apply ex_app; [exact Ht|]. constructor; [exact Hk|]. constructor; [|constructor].
+  cbn [exact_tok snd]. rewrite Ha, Hq. reflexivity.
+Qed.
+Lemma ex_field v og c name tbl : ctx_ok v og c -> ex v (field_toks c og name tbl).
+Proof.
+  intros H. unfold field_toks. destruct tbl as [tb|]; [destruct (wn c || truthy_ostr (talias tb))|];
+    repeat (apply ex_ident; [exact H|]); try apply ex_T; repeat (apply ex_ident; [exact H|]); apply ex_nil.
+Qed.
+
+#[export] Hint Resolve ctx_ok_set_wa ctx_ok_set_subq ctx_ok_set_subc ctx_ok_set_wn ctx_ok_fctx
+  ex_nil ex_T ex_V ex_bool ex_app ex_tparen ex_vparen ex_tjoin ex_ident ex_str ex_alias ex_field : exdb.
+
+Ltac inv_bind H :=
+  repeat match type of H with
+  | bind ?x _ = Ok _ => let E := fresh "E" in destruct x eqn:E; cbn [bind] in H; [|discriminate H]
+  end.
+Ltac inv_ok H := inv_bind H; inversion H; subst; clear H.
+
+Definition Et (t : term) := forall c og v ts, ctx_ok v og c -> ttoks c og t = Ok ts -> ex v ts.
+Definition El (l : tlist) := forall c og v ss, ctx_ok v og c -> ttoks_list c og l = Ok ss -> Forall (ex v) ss.
+Definition Ew (l : wlist) := forall c og v ss, ctx_ok v og c -> ttoks_whens c og l = Ok ss -> Forall (ex v) ss.
+Definition Eo (o : oterm) := match o with ONone => True | OSome t => Et t end.
+
+Lemma ex_falias v og r ts alias qc aqc kw :
+  (forall a, exact_tok v (false, AId r (or_ostr aqc qc) a og)) -> kw = og_as v og -> ex v ts ->
+  ex v (falias r og ts alias qc aqc kw).
+Proof.
+  intros Hq Hk Ht. unfold falias. destruct alias as [a|]; [|exact Ht].
+  apply ex_app; [exact Ht|]. constructor; [exact Hk|]. constructor; [apply Hq|constructor].
+Qed.
+
+Ltac use_ih :=
+  repeat match goal with
+  | Hc : ctx_ok ?v _ _, E : ttoks _ _ _ = Ok ?a |- _ =>
+      let X := fresh "X" in assert (X : ex v a) by (eauto with exdb); clear E
+  | Hc : ctx_ok ?v _ _, E : ttoks_list _ _ _ = Ok ?a |- _ =>
+      let X := fresh "X" in assert (X : Forall (ex v) a) by (eauto with exdb); clear E
+  | Hc : ctx_ok ?v _ _, E : ttoks_whens _ _ _ = Ok ?a |- _ =>
+      let X := fresh "X" in assert (X : Forall (ex v) a) by (eauto with exdb); clear E
+  end.
+
+Lemma ttoks_exact_all : (forall t, Et t) /\ (forall l, El l) /\ (forall l, Ew l) /\ (forall o, Eo o).
+Proof.
+  apply term_all_ind'; unfold Et, El, Ew, Eo.
+  - (* TField *) intros name tbl alias c og v ts Hc H. cbn [ttoks] in H. inv_ok H. destruct (wa c); auto with exdb.
+  - (* TStar *) intros tbl c og v ts Hc H. cbn [ttoks] in H. inv_ok H.
+    destruct tbl as [tb|]; [destruct (wn c || truthy_ostr (talias tb))|]; auto with exdb.
+  - intros s alias c og v ts Hc H. cbn [ttoks] in H. inv_ok H. auto with exdb.
+  - intros z alias c og v ts Hc H. cbn [ttoks] in H. inv_ok H. auto with exdb.
+  - intros b sl alias c og v ts Hc H. cbn [ttoks] in H. inv_ok H. auto with exdb.
+  - intros alias c og v ts Hc H. cbn [ttoks] in H. inv_ok H. auto with exdb.
+  - intros txt alias c og v ts Hc H. cbn [ttoks] in H. inv_ok H. auto with exdb.
+  - intros raw alias c og v ts Hc H. cbn [ttoks] in H. inv_ok H. auto with exdb.
+  - intros txt c og v ts Hc H. cbn [ttoks] in H. inv_ok H. auto with exdb.
+  - (* TNeg *) intros t IH c og v ts Hc H. cbn [ttoks] in H. inv_ok H. use_ih. auto with exdb.
+  - (* TArith *) intros op l IHl r IHr alias c og v ts Hc H. cbn [ttoks] in H. inv_ok H.
+    use_ih. destruct (wa c); auto 8 with exdb.
+  - (* TBasic *) intros cm l IHl r IHr alias c og v ts Hc H. cbn [ttoks] in H. inv_ok H.
+    use_ih. destruct (wa c); [|auto with exdb]. destruct Hc as [Hq [_ [Ha Hk]]].
+    apply ex_falias; [|exact Hk|auto with exdb]. intros ?. cbn [exact_tok snd]. rewrite Ha. reflexivity.
+  - (* TCplx *) intros bo l IHl r IHr alias c og v ts Hc H. cbn [ttoks] in H. inv_ok H.
+    use_ih. auto 8 with exdb.
+  - (* TIn *) intros t IHt cont IHc negated alias c og v ts Hc H. cbn [ttoks] in H. inv_ok H.
+    use_ih. auto 8 with exdb.
+  - (* TBetween *) intros t IHt lo IHlo hi IHhi alias c og v ts Hc H. cbn [ttoks] in H. inv_ok H.
+    use_ih. auto 10 with exdb.
+  - (* TBitAnd *) intros t IHt vv alias c og v ts Hc H. cbn [ttoks] in H. inv_ok H.
+    use_ih. auto 8 with exdb.
+  - (* TIsNull *) intros t IHt alias c og v ts Hc H. cbn [ttoks] in H. inv_ok H.
+    use_ih. auto 8 with exdb.
+  - (* TNotNull *) intros t IHt alias c og v ts Hc H. cbn [ttoks] in H. inv_ok H.
+    use_ih. auto 8 with exdb.
+  - (* TNot *) intros t IHt alias c og v ts Hc H. cbn [ttoks] in H. inv_ok H.
+    use_ih. change (q c) with (q (set_subc c true)). apply ex_alias; auto with exdb.
+  - (* TAll *) intros t IHt alias c og v ts Hc H. cbn [ttoks] in H. inv_ok H.
+    use_ih. auto 8 with exdb.
+  - (* TEmpty *) intros c og v ts Hc H. discriminate H.
+  - (* TCase *) intros ws IHw els IHe alias c og v ts Hc H. cbn [ttoks] in H.
+    destruct ws as [|cr vv r]; [discriminate H|].
+    destruct els as [|t']; unfold Et in IHe; inv_ok H;
+      try match goal with E : bind _ _ = Ok _ |- _ => inv_ok E end; use_ih; destruct (wa c); auto 12 with exdb.
+  - (* TFunc *) intros name args IHa special alias c og v ts Hc H. cbn [ttoks] in H. inv_ok H.
+    use_ih. destruct (wa c); auto 10 with exdb.
+  - (* TTuple *) intros vs IHv alias c og v ts Hc H. cbn [ttoks] in H. inv_ok H.
+    use_ih. auto 10 with exdb.
+  - (* TArray *) intros vs IHv alias c og v ts Hc H. cbn [ttoks] in H. inv_ok H.
+    use_ih. apply ex_alias; [exact Hc|].
+    destruct (is_pg (dia c)); [match goal with |- context [tflat (tjoin "," ?l)] => destruct (tflat (tjoin "," l)) end|];
+      auto 10 with exdb.
+  - (* TSub *) intros col tbl alias c og v ts Hc H. cbn [ttoks] in H. inv_ok H.
+    assert (X : ex v (tparen (subq c) [T "SELECT "; (false, AId RIdent (q c) col og); T " FROM "; (false, AId RIdent (q c) tbl og)]))
+      by auto 10 with exdb.
+    destruct (wa c); [|exact X]. destruct Hc as [Hq [_ [Ha Hk]]].
+    apply ex_falias; [|exact Hk|exact X]. intros ?. cbn [exact_tok snd]. rewrite Hq. reflexivity.
+  - (* TNil *) intros c og v ss Hc H. inversion H. constructor.
+  - (* TCons *) intros t IHt r IHr c og v ss Hc H. cbn [ttoks_list] in H. inv_ok H. use_ih. constructor; assumption.
+  - (* WNil *) intros c og v ss Hc H. inversion H. constructor.
+  - (* WCons *) intros cr IHc vv IHv r IHr c og v ss Hc H. cbn [ttoks_whens] in H. inv_ok H.
+    use_ih. constructor; [auto 8 with exdb|assumption].
+  - exact I.
+  - intros t IH. exact IH.
+Qed.
+
+Theorem ttoks_exact : forall t c og v ts, ctx_ok v og c -> ttoks c og t = Ok ts -> Forall (exact_tok v) ts.
+Proof. exact (proj1 ttoks_exact_all). Qed.
